@@ -168,6 +168,7 @@ OP_KINDS = ["diy", "dim", "wiy", "diyr", "leap", "cwds", "owds", "d1ad",
             "trunc_add", "consts", "props_epoch", "xuse", "xuse",
             "from_epoch_l", "sh_proc", "sh_now", "sh_fmt", "sh_iter",
             "sh_parts", "sh_ref", "parse_expr"]
+# (add_sweep is generated on its own, rarely: it is 6000 additions)
 
 
 MODE_SENSITIVE_DATES = ["2001-02-30T06:00:00Z", "2001-02-29", "2004-W53-1",
@@ -233,6 +234,14 @@ def gen_op(rng, kind, hot, handles):
                   "day_of_week": rng.choice([1, 7])}
         return ["mk", kw]
     if kind == "add":
+        if rng.random() < 0.01:
+            # a dense sweep: one date plus every day count of a window.  A
+            # memo table keyed in a coordinate that itself depends on the
+            # calendar (days since some base year) escapes same-argument
+            # comparisons -- the calendars' coordinates differ by a few
+            # thousand days -- but two sweeps under two calendars overlap
+            return ["add_sweep", "%04d-01-01T00:00:00Z" % rng.choice(
+                [2000, 2000, 1999, 2004]), 733, rng.choice([2500, 6000])]
         return ["add", gen_point(rng, hot), gen_dur(rng)]
     if kind == "sub":
         return ["sub", gen_point(rng, hot), gen_point(rng, hot)]
@@ -566,6 +575,7 @@ def directed_ops():
         for action in X_ACTIONS[xkind]:
             ops.append(["xuse", "x%d" % xi, xkind, text, action])
     ops += [["parse_expr", t] for t in MODE_SENSITIVE_DATES]
+    ops += [["add_sweep", "2000-01-01T00:00:00Z", 733, 6000]]   # (see below)
     ops += [["sh_ref", "proc", [], None], ["sh_ref", "proc", ["P1M"], "CCYY-DDD"],
             ["sh_ref", "diff", "2024-03-01T00:00:00Z", False],
             ["sh_parts", "2000-02-28T00:00:00Z", "2001-03-01T00:00:00Z", "P1M",
@@ -605,6 +615,9 @@ def gen_directed(rng, index):
     a, b = pairs[index % len(pairs)]
     variant = index // len(pairs)
     ops = list(directed_ops())
+    if index % 6:
+        # (the 6000-addition sweep: in every sixth trace only)
+        ops = [o for o in ops if o[0] != "add_sweep"]
     if variant:
         rng.shuffle(ops)
     paths = SWITCH_PATHS
@@ -744,6 +757,13 @@ def do_op(sim, client, op):
                 return canon(data.TimePoint(**kw))
             if kind == "add":
                 return canon(sh.tp.parse(op[1]) + sh.dp.parse(op[2]))
+            if kind == "add_sweep":
+                start = sh.tp.parse(op[1])
+                out = []
+                for n in range(op[2], op[2] + op[3]):
+                    r = start + data.Duration(days=n)
+                    out.append((r.year, r.month_of_year, r.day_of_month))
+                return summarise_list(out)
             if kind == "sub":
                 return canon(sh.tp.parse(op[1]) - sh.tp.parse(op[2]))
             if kind == "cmp":
